@@ -52,9 +52,9 @@ var pool = []string{
 	// booleans, names
 	"true", "false", "/x", "/A", "/zz", "/add", "/count",
 	// strings and their sub-intervals
-	"S", "S 1 2 getinterval", "T", "()",
+	"S", "S 1 2 getinterval", "S 0 2 getinterval", "T", "()",
 	// arrays and their sub-intervals
-	"A", "A 1 2 getinterval", "B", "[]",
+	"A", "A 1 2 getinterval", "A 0 2 getinterval", "B", "[]",
 	// dictionaries
 	"D", "E", "D", // (D twice: second reference to the same dictionary)
 	// distinct one-entry dictionaries whose keys are the names an implementation
@@ -72,7 +72,7 @@ var pool = []string{
 }
 
 // quickPool indexes the pool entries used for the largest arity.
-var smallPool = []string{"0", "1", "-1", "3", "9223372036854775807", "-9223372036854775808", "0.5", "true", "/x", "/count", "S", "S 1 2 getinterval", "A", "A 1 2 getinterval", "D", "E", "/P load", "{}", "mark", "StandardEncoding", "systemdict"}
+var smallPool = []string{"0", "1", "-1", "3", "9223372036854775807", "-9223372036854775808", "0.5", "true", "/x", "/count", "S", "S 1 2 getinterval", "S 0 2 getinterval", "A", "A 1 2 getinterval", "A 0 2 getinterval", "D", "E", "/P load", "{}", "mark", "StandardEncoding", "systemdict"}
 
 var operators = func() []string {
 	var ops []string
@@ -271,9 +271,9 @@ func boundaryFamily(budget time.Duration) mc.Family {
 	nb := len(boundaryInts)
 	return mc.Family{
 		Name:   "integer-boundaries",
-		Items:  nb * (len(bin) + 1),
+		Items:  nb * (len(bin) + 2),
 		Budget: budget,
-		Rule:   fmt.Sprintf("every binary arithmetic, comparison and bitwise operator the library has (%v) applied to every ordered pair of %d boundary integers (+-(2^k-1), +-2^k, +-(2^k+1) for k in {0,1,2,7,8,15,16,24,31,32,33,48,52,53,62}, the neighbourhood of sqrt(2^63) and of 2^32, min/max int, small values), and every unary numeric operator (%v) to each; item = (first operand, operator), Choose = second operand; non-trivial = the reference defines the result", bin, nb, un),
+		Rule:   fmt.Sprintf("every binary arithmetic, comparison and bitwise operator the library has (%v) applied to every ordered pair of %d boundary integers (+-(2^k-1), +-2^k, +-(2^k+1) for k in {0,1,2,7,8,15,16,24,31,32,33,48,52,53,62}, the neighbourhood of sqrt(2^63) and of 2^32, min/max int, small values), every unary numeric operator (%v) to each, and each as the amount of `n j roll` for n = 0..7 on seven operands and as the operand of index and copy; item = (first operand, operator), Choose = second operand; non-trivial = the reference defines the result", bin, nb, un),
 		Body: func(c *mc.Ctx, item int) mc.Verdict {
 			a := boundaryInts[item%nb]
 			oi := item / nb
@@ -281,9 +281,23 @@ func boundaryFamily(budget time.Duration) mc.Family {
 			if oi < len(bin) {
 				op = bin[oi]
 				prog = a + " " + boundaryInts[c.Choose(nb)] + " " + op
-			} else {
+			} else if oi == len(bin) {
 				op = un[c.Choose(len(un))]
 				prog = a + " " + op
+			} else {
+				// boundary integers as counts and positions of the stack operators
+				k := c.Choose(10)
+				switch {
+				case k < 8:
+					op = "roll"
+					prog = fmt.Sprintf("11 12 13 14 15 16 17 %d %s roll", k, a)
+				case k == 8:
+					op = "index"
+					prog = "11 12 13 14 15 16 17 " + a + " index"
+				default:
+					op = "copy"
+					prog = "11 12 13 14 15 16 17 " + a + " copy"
+				}
 			}
 			pr := psrun.NewPair(opTable)
 			r := pr.Step(prog)
